@@ -32,7 +32,34 @@ func jobScenario(r *core.Run, prop string) []*core.Violation {
 	if prop == "C04" && t.Draw(2) == 1 {
 		layout = 2
 	}
+	stall := -1 // a validator whose relayer stops attesting / estimating after the bootstrap (offline, not Byzantine)
+	if prop == "C04" && t.Draw(3) == 0 {
+		layout = 3
+	}
 	switch layout {
+	case 3:
+		// boundary: the validators that keep working hold exactly floor(2T/3) shares with T = 3k+1 or 3k+2 (one share
+		// short of two thirds), or exactly 2T/3 with T = 3k (just enough)
+		k := int64(2_000_000 + t.Intn(3_000_000_000))
+		rem := int64(t.Intn(3))
+		T := 3*k + rem
+		A := 2 * T / 3
+		n := cfg.NVals - 1
+		left := A
+		for i := 0; i < n; i++ {
+			share := left / int64(n-i)
+			if i < n-1 && share > 2_000_000 {
+				share = share - int64(t.Intn(int(share/4)))
+			}
+			if i == n-1 {
+				share = left
+			}
+			cfg.Stakes = append(cfg.Stakes, math.NewInt(share))
+			left -= share
+		}
+		cfg.Stakes = append(cfg.Stakes, math.NewInt(T-A))
+		stall = cfg.NVals - 1
+		r.Stats.Probe(fmt.Sprintf("c04_boundary_layout_T_mod_3=%d", rem))
 	case 1:
 		for i := 0; i < cfg.NVals; i++ {
 			cfg.Stakes = append(cfg.Stakes, math.NewInt(int64(1_000_000_000)*int64(i+1)))
@@ -110,11 +137,14 @@ func jobScenario(r *core.Run, prop string) []*core.Violation {
 	case "C07":
 		// liars may hold anything from 0 to 100 % of the shares
 		n := t.Intn(cfg.NVals + 1)
+		collude := t.Draw(3) == 1 // the liars coordinate on one byte-identical false proof
 		for i := 0; i < n; i++ {
 			vi := cfg.NVals - 1 - i
 			byz[vi] = true
 			w.Pigeons[vi].Hooks.Relay = w.byzRelay
-			if t.Draw(3) == 0 {
+			if collude {
+				w.Pigeons[vi].Hooks.Evidence = w.stripReceipt
+			} else if t.Draw(3) == 0 {
 				w.Pigeons[vi].Hooks.Evidence = w.byzEvidence(vi)
 			}
 		}
@@ -138,6 +168,13 @@ func jobScenario(r *core.Run, prop string) []*core.Violation {
 				w.Pigeons[vi].Hooks.Evidence = w.byzEvidence(vi)
 			}
 		}
+	}
+	if stall >= 0 {
+		delete(byz, stall)
+		p := w.Pigeons[stall]
+		p.Hooks = PigeonHooks{}
+		p.NoAttest, p.NoEstimate = true, true
+		r.Trace.Event("stalled", "%s holds the remaining shares and stops attesting / estimating", p.V.Acct.Name)
 	}
 	r.Stats.ProbeN("byzantine_validators", int64(len(byz)))
 	prevE := w.eligibility()
